@@ -16,10 +16,13 @@ for mid in sorted(os.listdir(os.path.join(V, 'seeded'))):
     cr = meta.get('check_run', {})
     first = next((l for l in cr.get('reported', []) if l.startswith('# ')), '')
     first = first[2:].replace('|', '/')
-    mech = 'oracle clause' if 'clause' in first and 'violated' in first else ('tie A (obligation)' if 'obligation' in first else ('correspondence' if 'diverge' in first else first[:30]))
-    m = re.search(r'clause (\w+)', first)
-    if m: mech += ' `%s`' % m.group(1)
-    rows.append('| %s | %s | %s | %s | %s |' % (mid, meta['change'], meta['needs_to_manifest'], 'yes' if cr.get('detected') else 'NO', mech + ('' if cr.get('with_failing_input') else ' (no failing clause: reported with no-failing-input-found)')))
+    if 'diverge' in first: mech = 'model/implementation divergence'
+    elif 'obligation' in first: mech = 'tie A (proof obligation)'
+    elif 'clause' in first and 'violated' in first:
+        m = re.search(r'clause (\w+)', first)
+        mech = 'oracle clause `%s`' % (m.group(1) if m else '?')
+    else: mech = first[:60] or '-'
+    rows.append('| %s | %s | %s | %s | %s |' % (mid + (' (r2)' if meta.get('round') == 2 else ''), meta['change'], meta['needs_to_manifest'], 'yes' if cr.get('detected') else 'NO', mech + ('' if cr.get('with_failing_input') else ' (`no-failing-input-found`)')))
 print('| id | change (compiles, suite green) | what it needs to manifest | caught by the quick check | first mechanism reporting it |')
 print('|---|---|---|---|---|')
 print('\n'.join(rows))
